@@ -22,9 +22,12 @@ func runBigCase(idx int, dir, tier string, seed int64) *caseResult {
 	}
 	defer r.close()
 	r.track = nil // the labelling tracker is not used here
-	n := 65536 + 600 + rnd.Intn(8000)
-	hosts := 40
-	slot0 := 30 + rnd.Intn(200)
+	n := 65536 + 2400 + rnd.Intn(6000)
+	// a host value selects about as many series of the first container (series ids are handed out in creation order)
+	// as of the second one: their two data load stages then take the same time
+	per := 300 + rnd.Intn(500)
+	hosts0, hosts := 65535/per, (n-65535)/per
+	slot0 := 30 + rnd.Intn(280)
 	var batch []node.Point
 	flushBatch := func() bool {
 		if len(batch) == 0 {
@@ -39,9 +42,22 @@ func runBigCase(idx int, dir, tier string, seed int64) *caseResult {
 		batch = nil
 		return true
 	}
+	// two series at both ends of the hour: the metric's slot range in the memory database spans the whole family, every
+	// series load walks all of it (the time a load spends on one series' buffer is what the stages overlap in)
+	for i, slot := range []int{0, 359} {
+		batch = append(batch, node.Point{Metric: "big", Timestamp: sc.Base + int64(slot)*slotMs + 1000,
+			Tags:   map[string]string{"uid": fmt.Sprintf("edge%d", i), "host": "edge"},
+			Fields: []node.Field{{Name: "f", Type: node.Sum, Value: 0.5}}})
+	}
+	hostOf := func(i int) int {
+		if i+2 < 65535 { // the two edge series were created first
+			return i % hosts0
+		}
+		return i % hosts
+	}
 	for i := 0; i < n; i++ {
 		batch = append(batch, node.Point{Metric: "big", Timestamp: sc.Base + int64(slot0+i%12)*slotMs + 1000,
-			Tags:   map[string]string{"uid": fmt.Sprintf("u%d", i), "host": fmt.Sprintf("h%d", i%hosts)},
+			Tags:   map[string]string{"uid": fmt.Sprintf("u%d", i), "host": fmt.Sprintf("h%d", hostOf(i))},
 			Fields: []node.Field{{Name: "f", Type: node.Sum, Value: float64(i + 1)}}})
 		if len(batch) == 4000 && !flushBatch() {
 			return res
@@ -51,9 +67,9 @@ func runBigCase(idx int, dir, tier string, seed int64) *caseResult {
 		return res
 	}
 	res.count("big_series_in_one_memory_database", n)
-	nq := 30
+	nq := 24
 	if tier == "thorough" {
-		nq = 100
+		nq = 80
 	}
 	queries := make([]*node.Query, nq)
 	for i := range queries {
@@ -70,6 +86,7 @@ func runBigCase(idx int, dir, tier string, seed int64) *caseResult {
 		err   error
 	}
 	var inMemory []bad
+	wrong := map[int]bool{}
 	for i, q := range queries {
 		qr, exp, diffs, status := r.run(q, r.m)
 		res.Evals++
@@ -85,6 +102,7 @@ func runBigCase(idx int, dir, tier string, seed int64) *caseResult {
 		res.count("expected_values", values)
 		if status != "" || len(diffs) > 0 {
 			inMemory = append(inMemory, bad{q, diffs, status, qr.Err})
+			wrong[i] = true
 		}
 	}
 	if err := r.n.FlushAll(); err != nil {
@@ -93,6 +111,9 @@ func runBigCase(idx int, dir, tier string, seed int64) *caseResult {
 	}
 	fileOK := true
 	for i, q := range queries {
+		if i >= 12 && !wrong[i] {
+			continue // the table file is read by the first queries and by those that were wrong in memory
+		}
 		qr, _, diffs, status := r.run(q, r.m)
 		res.Evals++
 		res.count("queries", 1)
@@ -107,7 +128,11 @@ func runBigCase(idx int, dir, tier string, seed int64) *caseResult {
 				idx, n, q.SQL(), status, qr.Err, first, len(diffs)), map[string]interface{}{"sql": q.SQL(), "series": n, "diffs": headDiffs(diffs, 12)})
 		}
 	}
-	for _, b := range inMemory {
+	res.count("big_queries_wrong_in_memory", len(inMemory))
+	for i, b := range inMemory {
+		if i >= 4 {
+			break // one witness per query, a few are enough
+		}
 		first := ""
 		if len(b.diffs) > 0 {
 			first = b.diffs[0].String()
@@ -117,8 +142,8 @@ func runBigCase(idx int, dir, tier string, seed int64) *caseResult {
 			// wrong values of other series while the data sat in the memory database, right once read from the file
 			class = "C11/memdb/parallel-series-container-loads-share-field-entry"
 		}
-		res.violation(class, fmt.Sprintf("big-%d: %d series of one metric in one memory database (2 series id containers, one data load stage each, run in parallel): %s -> %s %v %s (%d differences; the same queries over the flushed data %s)",
-			idx, n, b.q.SQL(), b.st, b.err, first, len(b.diffs), map[bool]string{true: "are right", false: "differ too"}[fileOK]),
+		res.violation(class, fmt.Sprintf("big-%d: %d series of one metric in one memory database (2 series id containers, one data load stage each, run in parallel): %s -> %s %v %s (%d differences; %d of %d queries wrong; the same queries over the flushed data %s)",
+			idx, n, b.q.SQL(), b.st, b.err, first, len(b.diffs), len(inMemory), len(queries), map[bool]string{true: "are right", false: "differ too"}[fileOK]),
 			map[string]interface{}{"sql": b.q.SQL(), "series": n, "diffs": headDiffs(b.diffs, 12)})
 	}
 	return res
